@@ -405,11 +405,15 @@ func c12IsZero(fd protoreflect.FieldDescriptor, v C12Val) bool {
 }
 
 func (st *c12Stats) long(n int, ctx string) {
-	if n < 1024 {
+	if n < 1024 && n >= 0 {
 		return
 	}
 	if st.longBy == nil {
 		st.longBy = map[string]bool{}
+	}
+	if n < 0 { // a value of the class "looks like an encoded message"
+		st.longBy["encoded_like:"+ctx] = true
+		return
 	}
 	st.longBy["len>=1024:"+ctx] = true
 	if n >= 4096 {
@@ -424,6 +428,9 @@ func (st *c12Stats) long(n int, ctx string) {
 func c12ScalarStats(fd protoreflect.FieldDescriptor, v C12Val, st *c12Stats, ctx string) {
 	switch fd.Kind() {
 	case protoreflect.StringKind:
+		if v.R <= 1 && c12EncSet[v.S] {
+			st.long(-1, ctx)
+		}
 		n := len(v.S) // lengths without materialising the repetition
 		if v.R > 1 {
 			n *= v.R
@@ -436,6 +443,9 @@ func c12ScalarStats(fd protoreflect.FieldDescriptor, v C12Val, st *c12Stats, ctx
 			st.multiByteStr++
 		}
 	case protoreflect.BytesKind:
+		if v.R <= 1 && c12EncSet[string(v.X)] {
+			st.long(-1, ctx)
+		}
 		n := len(v.X)
 		if v.R > 1 {
 			n *= v.R
@@ -563,6 +573,7 @@ func c12Walk(md protoreflect.MessageDescriptor, tree *C12Msg, depth int, st *c12
 }
 
 func c12Classes(origin string, tree *C12Msg, ty c12Type) ([]string, bool) {
+	c12EncInit()
 	var st c12Stats
 	c12Walk(ty.md, tree, 0, &st)
 	if i := strings.IndexByte(origin, ':'); i >= 0 {
